@@ -380,7 +380,8 @@ func hasNestedParens(n any) bool {
 		return false
 	}
 	check := func(stmts []*syntax.Stmt) bool {
-		return len(stmts) > 0 && (starts(stmts[0]) || ends(stmts[len(stmts)-1]))
+		// as in the printer: the `( (` rule looks at the first statement, the `) )` rule only at a lone statement
+		return len(stmts) > 0 && (starts(stmts[0]) || (len(stmts) == 1 && ends(stmts[0])))
 	}
 	return treeHas(n, func(x any) bool {
 		switch x := x.(type) {
